@@ -349,7 +349,9 @@ def run_inf(ctx):
     from mitxgraders import FormulaGrader, NumericalGrader
     inf = float('inf')
     table = [('infty', 'infty', True), ('infty', '-infty', False), ('-infty', '-infty', True), ('infty', '5', False),
-             ('5', 'infty', False), ('-infty', 'infty', False), ('infty', '1e300', False), ('2*infty', 'infty', True)]
+             ('5', 'infty', False), ('-infty', 'infty', False), ('infty', '1e300', False), ('2*infty', 'infty', True),
+             ('-infty', '5', False), ('-infty', '-5', False), ('-infty', '-1e300', False), ('5', '-infty', False), ('-5', '-infty', False),
+             ('infty', '-5', False), ('-infty', '0', False), ('0', 'infty', False), ('0', '-infty', False), ('-2*infty', '-infty', True)]
     for ans, student, want in table:
         for cls in (FormulaGrader, NumericalGrader):
             for tol in (0, 5, '100%', '1000%'):
